@@ -283,7 +283,13 @@ def evaluate_cases(P, ctx, cases):
     fields = run_driver(P.ID, cases)
     outs = []
     judge = getattr(P, 'judge', default_judge)
+    timeouts_bad = 0
     for c, f in zip(cases, fields):
+        if timeouts_bad >= 10:
+            # ten inputs already ran into the per-case time limit and fail the property: that settles the verdict; running
+            # the remaining cases (each up to CASE_TIMEOUT) would only make the check take hours
+            ctx.say('evaluation stopped after 10 timed-out failing cases; %d cases not run' % (len(cases) - len(outs)))
+            break
         model = f[0] if f else ''
         spec = f[1] if len(f) > 1 else '-'
         aux = f[2:]
@@ -300,6 +306,8 @@ def evaluate_cases(P, ctx, cases):
         # difference there is recorded as a note, never raised as an alarm
         if isinstance(o.spec, str) and o.spec.startswith('-') and o.prop_ok:
             o.in_domain = False
+        if impl == 'err:timeout' and not o.prop_ok:
+            timeouts_bad += 1
         outs.append(o)
     return outs
 
